@@ -325,7 +325,7 @@ FUNCTIONS = [
         name='hexdump', cxx='trompeloeil::hexdump', file=MOCK,
         header=r'inline void hexdump\(const void\* begin, size_t size, std::ostream& os\)',
         lean_sig='(bytes : List Nat) (size : Nat) : List HTok',
-        pre=[(r'std::for_each\(bytes\.begin\(\), bytes\.end\(\),\s*\[&os, &byte_number\]\(unsigned byte\)\s*\{', 'for (auto byte : bytes) {'),
+        pre=[(r'std::for_each\(bytes\.begin\(\), bytes\.end\(\),\s*\[&os, &byte_number\]\(unsigned (\w+)\)\s*\{', r'for (auto \1 : bytes) {'),
              (r'\}\s*\)\s*;', '}'),
              (r'mini_span<uint8_t const> bytes\(static_cast<uint8_t const\*>\(begin\), size\);', '')],
         prologue=['let mut os_ : List HTok := []'], epilogue='return os_', void_result='os_',
@@ -356,7 +356,7 @@ FUNCTIONS = [
         pre=[(r'using std::begin;', ''), (r'using std::end;', ''), (r'using element_type = decltype\(\*it\);', ''),
              (r'std::vector<std::function<bool\(const element_type\s*&\)>>', 'std::vector'),
              (r'(?:impl::)?make_predicate_matcher<element_type>\((\w+)\)', r'\1'), (r'\{\s*elements\.\.\.\s*\}', '{elements}'),
-             (r'std::find_if\(matchers\.begin\(\), matchers\.end\(\),\s*\[it\]\(const auto\s*&\s*matcher\)\s*\{\s*return matcher\(\*it\);\s*\}\)', 'find_first_accepting(matchers, *it)')],
+             (r'std::find_if\(matchers\.begin\(\), matchers\.end\(\),\s*\[it\]\(const auto\s*&\s*(\w+)\)\s*\{\s*return \1\(\*it\);\s*\}\)', 'find_first_accepting(matchers, *it)')],
         vars={'elements': 'elements'},
         local_types={'found': 'Option Nat'},
         decl_rules=[(r'^std::vector matchers = \{elements\}$', 'let mut matchers : List μ := elements'),
@@ -376,7 +376,7 @@ FUNCTIONS = [
         pre=[(r'using std::begin;', ''), (r'using std::end;', ''), (r'using element_type = decltype\(\*it\);', ''),
              (r'std::vector<std::function<bool\(const element_type\s*&\)>>', 'std::vector'),
              (r'(?:impl::)?make_predicate_matcher<element_type>\((\w+)\)', r'\1'), (r'\{\s*elements\.\.\.\s*\}', '{elements}'),
-             (r'std::find_if\(matchers\.begin\(\), matchers\.end\(\),\s*\[it\]\(const auto\s*&\s*matcher\)\s*\{\s*return matcher\(\*it\);\s*\}\)', 'find_first_accepting(matchers, *it)')],
+             (r'std::find_if\(matchers\.begin\(\), matchers\.end\(\),\s*\[it\]\(const auto\s*&\s*(\w+)\)\s*\{\s*return \1\(\*it\);\s*\}\)', 'find_first_accepting(matchers, *it)')],
         vars={'elements': 'elements'},
         local_types={'found': 'Option Nat'},
         decl_rules=[(r'^std::vector matchers = \{elements\}$', 'let mut matchers : List μ := elements'),
@@ -396,7 +396,7 @@ FUNCTIONS = [
         pre=[(r'using std::begin;', ''), (r'using std::end;', ''), (r'using element_type = decltype\(\*it\);', ''),
              (r'std::vector<std::function<bool\(const element_type\s*&\)>>', 'std::vector'),
              (r'(?:impl::)?make_predicate_matcher<element_type>\((\w+)\)', r'\1'), (r'\{\s*elements\.\.\.\s*\}', '{elements}'),
-             (r'std::find_if\(matchers\.begin\(\), matchers\.end\(\),\s*\[it\]\(const auto\s*&\s*matcher\)\s*\{\s*return matcher\(\*it\);\s*\}\)', 'find_first_accepting(matchers, *it)')],
+             (r'std::find_if\(matchers\.begin\(\), matchers\.end\(\),\s*\[it\]\(const auto\s*&\s*(\w+)\)\s*\{\s*return \1\(\*it\);\s*\}\)', 'find_first_accepting(matchers, *it)')],
         vars={'elements': 'elements'},
         local_types={'found': 'Option Nat'},
         decl_rules=[(r'^std::vector matchers = \{elements\}$', 'let mut matchers : List μ := elements'),
@@ -416,7 +416,7 @@ FUNCTIONS = [
         pre=[(r'using std::begin;', ''), (r'using std::end;', ''), (r'using element_type = decltype\(\*it\);', ''),
              (r'std::vector<std::function<bool\(const element_type\s*&\)>>', 'std::vector'),
              (r'(?:impl::)?make_predicate_matcher<element_type>\((\w+)\)', r'\1'), (r'\{\s*elements\.\.\.\s*\}', '{elements}'),
-             (r'std::find_if\(matchers\.begin\(\), matchers\.end\(\),\s*\[it\]\(const auto\s*&\s*matcher\)\s*\{\s*return matcher\(\*it\);\s*\}\)', 'find_first_accepting(matchers, *it)')],
+             (r'std::find_if\(matchers\.begin\(\), matchers\.end\(\),\s*\[it\]\(const auto\s*&\s*(\w+)\)\s*\{\s*return \1\(\*it\);\s*\}\)', 'find_first_accepting(matchers, *it)')],
         vars={'elements': 'elements'},
         local_types={'found': 'Option Nat'},
         decl_rules=[(r'^std::vector matchers = \{elements\}$', 'let mut matchers : List μ := elements'),
@@ -1126,7 +1126,7 @@ FUNCTIONS += [
         name='streamer_collection', cxx='streamer<T, false, true>::print', file=MOCK, module='StreamerCollection',
         header=r'struct streamer<T, false, true>\s*\{\s*static\s*void\s*print\(\s*std::ostream& os,\s*T const& t\)',
         pre=[(r'using element_type = [^;]*;', ''),
-             (r'std::for_each\(std::begin\(t\), std::end\(t\),\s*\[&os, &sep\]\(element_type element\)\s*\{', 'for (auto& element : elements) {'),
+             (r'std::for_each\(std::begin\(t\), std::end\(t\),\s*\[&os, &sep\]\(element_type (\w+)\)\s*\{', r'for (auto& \1 : elements) {'),
              (r'\}\s*\)\s*;', '}')],
         lean_sig='(elements : List Nat) : List PrTok',
         prologue=['let mut acts : List PrTok := []'], epilogue='return acts',
